@@ -132,3 +132,24 @@ Theorem C10_gml_roundtrip_reindex :
        exists u v, In u (node_ids c) /\ In v (node_ids c) /\ k = f u /\ l = f v /\ adj c u v = Some x).
 Proof. exact gml_roundtrip_reindex. Qed.
 Print Assumptions C10_gml_roundtrip_reindex.
+
+(** ... and with reindex=True (the default of its_to_gml): both rules read back as renumberings fA / fB of the centre
+    c = get_rc I — same element and charges at fA n and fB n, same bond dictionary between (fA u, fA v) and (fB u, fB v),
+    no other atoms.  (The two numberings may differ: the node order of the centre of the centre need not be the node
+    order of the centre; the rules are then equivalent, not equal.) *)
+Theorem C10_two_routes_centre_reindex :
+  forall I : gr, gwfb I = true -> all_tgh I = true -> its_ok (get_rc I) = true ->
+    let c := get_rc I in
+    let fA := mapget (enum_from 1%N (node_ids c)) in
+    let fB := mapget (enum_from 1%N (node_ids (get_rc c))) in
+    let A := gml_to_its (its_to_gml I true true false) in
+    let B := gml_to_its (its_to_gml c true true false) in
+    (forall n a, label c n = Some a ->
+       let e := tg_el (tG_of a) in let q := tg_ch (tG_of a) in let q' := tg_ch (tH_of a) in
+       label A (fA n) = Some (gml_node (fA n) e q q') /\ label B (fB n) = Some (gml_node (fB n) e q q')) /\
+    (forall u v, has_node c u = true -> has_node c v = true ->
+       adj A (fA u) (fA v) = adj c u v /\ adj B (fB u) (fB v) = adj c u v) /\
+    (forall k, has_node A k = true <-> exists n, has_node c n = true /\ k = fA n) /\
+    (forall k, has_node B k = true <-> exists n, has_node c n = true /\ k = fB n).
+Proof. exact two_routes_centre_reindex. Qed.
+Print Assumptions C10_two_routes_centre_reindex.
